@@ -125,3 +125,32 @@ Definition cycles_fit (xt : xref_type) (d : doc) : Prop :=
   | XTable => True
   | XStream => N.max (d_max_id d) (last_number (d_objects d)) + 3 < u32_mod
   end.
+
+(* ---------- the same domains without "no Encrypt entry" ----------
+   An ENCRYPTED document (Document::encrypt: the trailer names the encryption dictionary object by Encrypt, every
+   string and stream body is ciphertext) is written and read back like any other: the encryption dictionary is an
+   ordinary object, ciphertext strings / stream bodies are arbitrary bytes, which the domain holds already.  The
+   reader's Encrypt branch is Model/LoaderEnc.v; the theorems about it (Proofs/LoadProofsFull.v: load_save_gen_enc,
+   load_save_enc) are stated on these records.  [savable_core] / [savable] = these plus the one field. *)
+Record savable_core_enc (d : doc) : Prop := {
+  se_max_id : d_max_id d + 2 < u32_mod;
+  se_mark : binary_mark_ok (d_binary_mark d) = true;
+  se_version_eol : no_eol (d_version d);
+  se_version_utf8 : utf8_decode (d_version d) <> None;
+  se_numbers : increasing 0 (obj_numbers (d_objects d));
+  se_objects : Forall (fun io => fst (fst io) <= d_max_id d /\ snd (fst io) <= u16_max /\
+                                 top_wf (snd io) /\ skipped (snd io) = false) (d_objects d);
+  se_trailer : obj_wf (ODict (d_trailer d));
+  se_no_prev : dict_has (d_trailer d) K_Prev = false;
+}.
+
+Record savable_enc (d : doc) : Prop := {
+  sn_max_id : N.max (d_max_id d) (last_number (d_objects d)) + 2 < u32_mod;
+  sn_mark : binary_mark_ok (d_binary_mark d) = true;
+  sn_version_eol : no_eol (d_version d);
+  sn_version_utf8 : utf8_decode (d_version d) <> None;
+  sn_numbers : increasing 0 (obj_numbers (d_objects d));
+  sn_objects : Forall (fun io => snd (fst io) <= u16_max /\ top_wf (snd io) /\ skipped (snd io) = false) (d_objects d);
+  sn_trailer : obj_wf (ODict (d_trailer d));
+  sn_no_prev : dict_has (d_trailer d) K_Prev = false;
+}.
